@@ -36,6 +36,10 @@ class _File:
         self._path = path
         self._mode = mode
         self._pos = 0
+        try:
+            layer.fds[real.fileno()] = self
+        except Exception:
+            pass
         if "a" in mode:
             try:
                 self._pos = os.path.getsize(path)
@@ -78,6 +82,13 @@ class _File:
     def flush(self):
         return self._real.flush()
 
+    def truncate(self, size=None):
+        self._layer.call("truncate", self._path)
+        r = self._real.truncate(size)
+        self._layer.event(("truncate", self._path,
+                           self._pos if size is None else size))
+        return r
+
     def close(self):
         try:
             if not self._real.closed:
@@ -118,6 +129,7 @@ class Layer:
         self.events = []       # disk-changing events in order
         self.active = False
         self.fired = False
+        self.fds = {}
 
     # -- bookkeeping -------------------------------------------------------------
     def mine(self, path):
@@ -205,11 +217,93 @@ class Layer:
         def p_unlink(self_, *a, **k):
             if not L.active or not L.mine(self_):
                 return o["p_unlink"](self_, *a, **k)
-            L.call("unlink", self_)
-            r = o["p_unlink"](self_, *a, **k)
-            L.event(("unlink", os.fspath(self_)))
+            # pathlib calls os.unlink (patched): the call and the event are
+            # registered there
+            return o["p_unlink"](self_, *a, **k)
+
+        # fd-level / path-level calls that change files behind the back of
+        # the file objects
+        def fd_path(fd):
+            f = L.fds.get(fd)
+            try:
+                if f is not None and f._real.fileno() == fd:
+                    return f
+            except Exception:
+                pass
+            return None
+
+        o["posix_fallocate"] = getattr(os, "posix_fallocate", None)
+        o["ftruncate"] = os.ftruncate
+        o["truncate"] = os.truncate
+        o["rename"] = os.rename
+        o["replace"] = os.replace
+        o["remove"] = os.remove
+        o["os_unlink"] = os.unlink
+        o["os_write"] = os.write
+
+        def f_fallocate(fd, offset, length):
+            f = fd_path(fd) if L.active else None
+            if f is None:
+                return o["posix_fallocate"](fd, offset, length)
+            L.call("fallocate", f._path)
+            f._real.flush()
+            r = o["posix_fallocate"](fd, offset, length)
+            L.event(("fallocate", f._path, offset, length))
             return r
 
+        def f_ftruncate(fd, length):
+            f = fd_path(fd) if L.active else None
+            if f is None:
+                return o["ftruncate"](fd, length)
+            L.call("truncate", f._path)
+            f._real.flush()
+            r = o["ftruncate"](fd, length)
+            L.event(("truncate", f._path, length))
+            return r
+
+        def f_truncate(path, length):
+            if not L.active or isinstance(path, int) or not L.mine(path):
+                return o["truncate"](path, length)
+            L.call("truncate", path)
+            r = o["truncate"](path, length)
+            L.event(("truncate", os.fspath(path), length))
+            return r
+
+        def mk_rename(orig):
+            def f_rename(src, dst, **k):
+                if not L.active or not (L.mine(src) or L.mine(dst)):
+                    return orig(src, dst, **k)
+                L.call("rename", dst)
+                r = orig(src, dst, **k)
+                L.event(("rename", os.fspath(src), os.fspath(dst)))
+                return r
+            return f_rename
+
+        def mk_remove(orig):
+            def f_remove(path, **k):
+                if not L.active or not L.mine(path):
+                    return orig(path, **k)
+                L.call("unlink", path)
+                r = orig(path, **k)
+                L.event(("unlink", os.fspath(path)))
+                return r
+            return f_remove
+
+        def f_os_write(fd, data):
+            f = fd_path(fd) if L.active else None
+            if f is None:
+                return o["os_write"](fd, data)
+            return f.write(data)
+
+        if o["posix_fallocate"]:
+            os.posix_fallocate = f_fallocate
+        os.ftruncate = f_ftruncate
+        os.truncate = f_truncate
+        os.rename = mk_rename(o["rename"])
+        os.replace = mk_rename(o["replace"])
+        os.remove = mk_remove(o["remove"])
+        os.unlink = mk_remove(o["os_unlink"])
+        os.write = f_os_write
         builtins.open = f_open
         io.open = f_open
         os.makedirs = f_makedirs
@@ -257,6 +351,15 @@ class Layer:
         pathlib.Path.is_file = o["p_is_file"]
         pathlib.Path.exists = o["p_exists"]
         pathlib.Path.unlink = o["p_unlink"]
+        if o["posix_fallocate"]:
+            os.posix_fallocate = o["posix_fallocate"]
+        os.ftruncate = o["ftruncate"]
+        os.truncate = o["truncate"]
+        os.rename = o["rename"]
+        os.replace = o["replace"]
+        os.remove = o["remove"]
+        os.unlink = o["os_unlink"]
+        os.write = o["os_write"]
         if self.with_requests:
             import requests
             requests.Session.get = o["get"]
@@ -301,6 +404,23 @@ def replay_events(pristine, dest, events, root_from, torn=None):
         elif kind == "unlink":
             if os.path.exists(t):
                 os.unlink(t)
+        elif kind == "fallocate":
+            if os.path.exists(t):
+                need = ev[2] + ev[3]
+                size = os.path.getsize(t)
+                if size < need:
+                    with open(t, "r+b") as f:
+                        f.seek(size)
+                        f.write(b"\0" * (need - size))
+        elif kind == "truncate":
+            if os.path.exists(t):
+                with open(t, "r+b") as f:
+                    f.truncate(ev[2])
+        elif kind == "rename":
+            t2 = tr(ev[2])
+            if t2 is not None and os.path.exists(t):
+                os.makedirs(os.path.dirname(t2), exist_ok=True)
+                os.replace(t, t2)
 
 
 ERRNOS = {"ENOSPC": errno_mod.ENOSPC, "EACCES": errno_mod.EACCES,
